@@ -327,11 +327,12 @@ def suites_for(pid, rng, tier):
     SG = ("sgroup", "sgroup_keyed")
 
     def nest_sim(name, cfgs=("std", "alloc")):
-        """a Vec join of two Vec joins, a.join(b) of two Vec joins, a Vec merge of two Vec merges (std and alloc builds), predicted by composing the extracted model with itself (runner/main.ml nest_trace):
+        """a Vec join of two Vec joins, a.join(b) of two Vec joins, a Vec merge of two Vec merges, a FutureGroup of two joins, a StreamGroup of two merges
+           (std and alloc builds), predicted by composing the extracted model with itself (runner/main.ml nest_trace):
            kind "nsim" = like "scan" (model trace compared under the projection, monitor on the implementation's trace), without the corpus and
            without the extracted single-level predicates"""
         for c in cfgs:
-            S.append((name, c, "nsim", gen.gen_nest(rng, ks // 2, "y" + c[0], combs=("nest_jj", "nest_mm", "nest_jt"), local=True)))
+            S.append((name, c, "nsim", gen.gen_nest(rng, ks // 2, "y" + c[0], combs=("nest_jj", "nest_mm", "nest_jt", "nest_gj", "nest_gm"), local=True)))
     if pid == "C01":
         fixed("wake", CFG3, SCAN4 + ["race", "race_ok", "chain"])
         fixed("wake-large", ("std", "alloc"), SCAN4, ks // 4, large=True)
